@@ -27,8 +27,10 @@ def c01(ck, F, tier):
         "every persistent Worksheet field. Decides the shape of recording and inversion, not equality of restored values.")
     ck.rule("ARMS-undo", "undo arm per Diff variant: exhaustive, reads all old_*, no payload new_*, reversed iteration", floor=90)
     ck.rule("REC", "ops that write persistent state record a diff on every normal path", floor=40)
+    ck.rule("REC-ARGS", "numeric Diff fields agree with the arguments passed to the model mutator of the same name", floor=15)
     guarded(ck, um.arms_undo_redo, F, "undo")
     guarded(ck, um.rec_rule, F)
+    guarded(ck, um.rec_args, F)
 
 
 def c02(ck, F, tier):
@@ -61,9 +63,11 @@ def c03(ck, F, tier):
     ck.rule("TABLE-queue", "queue tags, ordering and replay dispatch", floor=10)
     ck.rule("WMC-history", "who may write the history stacks / queue", floor=8)
     ck.rule("REC", "ops that write persistent state record (hence replicate) a diff", floor=40)
+    ck.rule("QUEUE-APPEND", "outside flush_send_queue the queue is only ever pushed to", floor=3)
     guarded(ck, um.table_queue, F)
     guarded(ck, um.wmc_stacks, F)
     guarded(ck, um.rec_rule, F)
+    guarded(ck, um.queue_append_only, F)
 
 
 def c04(ck, F, tier):
